@@ -860,6 +860,28 @@ impl<'a, 'b, 'ast> Visit<'ast> for Collector<'a, 'b> {
                     self.edits.push((sp.start, sp.end, text));
                 }
             }
+            Expr::MethodCall(c) if rw.for_iter && c.method == "next" && c.args.is_empty() && matches!(&*c.receiver, Expr::MethodCall(m) if m.method == "filter" && m.args.len() == 1 && matches!(&m.args[0], Expr::Closure(cl) if cl.inputs.len() == 1) && { let mut r = &*m.receiver; while let Expr::Paren(p) = r { r = &p.expr; } matches!(r, Expr::Range(rg) if rg.start.is_some() && rg.end.is_some() && matches!(rg.limits, syn::RangeLimits::HalfOpen(_))) }) => {
+                // R29 (option for_iter=1): `(lo..hi).filter(|&i| B).next()` -> the find-first loop
+                //   `{ let mut k = lo; let mut found = None; while k < hi { let i = k; k += 1; if B { found = Some(i); break; } } found }`
+                if let Expr::MethodCall(m) = &*c.receiver { if let Expr::Closure(cl) = &m.args[0] {
+                    let mut r = &*m.receiver; while let Expr::Paren(p) = r { r = &p.expr; }
+                    if let Expr::Range(rg) = r {
+                        let idx = rw.loop_idx.get();
+                        rw.loop_idx.set(idx + 1);
+                        let a = e.span().byte_range().start;
+                        let b = cl.body.span().byte_range().start;
+                        rw.loop_headers.borrow_mut().push(rw.src[a..b].split_whitespace().collect::<Vec<_>>().join(" "));
+                        let (lo, hi) = (rw.render_expr(rg.start.as_ref().unwrap()), rw.render_expr(rg.end.as_ref().unwrap()));
+                        let pat = rw.src[cl.inputs[0].span().byte_range()].trim().trim_start_matches('&').trim().to_string();
+                        let body = rw.render_expr(&cl.body);
+                        let inv = rw.section(&format!("loop {idx}")).map(|t| mark(t)).unwrap_or_default();
+                        let text = format!("({{ let mut __it{idx} = {lo}; let __hi{idx} = {hi}; let mut __found{idx}: Option<usize> = None;\nwhile __it{idx} < __hi{idx}\n{inv}\ndecreases __hi{idx} - __it{idx}, //@p\n{{ let {pat} = __it{idx}; __it{idx} += 1; if {body} {{ __found{idx} = Some({pat}); break; }} }} __found{idx} }})");
+                        rw.count("R29");
+                        let sp = e.span().byte_range();
+                        self.edits.push((sp.start, sp.end, text));
+                    }
+                } }
+            }
             Expr::MethodCall(c) if rw.for_iter && c.method == "then" && c.args.len() == 1 && matches!(&c.args[0], Expr::Closure(cl) if cl.inputs.is_empty()) => {
                 // R26 (option for_iter=1): `b.then(|| E)` -> `if b { Some(E) } else { None }`  (bool::then, by definition)
                 if let Expr::Closure(cl) = &c.args[0] {
@@ -1012,9 +1034,9 @@ impl<'a, 'b, 'ast> Visit<'ast> for Collector<'a, 'b> {
                     let inner = apply_edits(rw.src, (br.start + 1)..(br.end - 1), c.edits);
                     let begin = rw.section(&format!("loop {idx} begin")).map(|t| format!("proof {{ //@p\n{}\n}} //@p\n", mark(t))).unwrap_or_default();
                     let text = if matches!(r.limits, syn::RangeLimits::HalfOpen(_)) {
-                        format!("{{ let mut __it{idx} = {lo}; let __hi{idx} = {hi};\nwhile __it{idx} < __hi{idx}\n{inv}\ndecreases __hi{idx} - __it{idx}, //@p\n{{ let {var} = __it{idx}; __it{idx} += 1;\n{begin}{inner} }} }}")
+                        format!("(); {{ let mut __it{idx} = {lo}; let __hi{idx} = {hi};\nwhile __it{idx} < __hi{idx}\n{inv}\ndecreases __hi{idx} - __it{idx}, //@p\n{{ let {var} = __it{idx}; __it{idx} += 1;\n{begin}{inner} }} }}")
                     } else {
-                        format!("{{ let mut __it{idx} = {lo}; let __hi{idx} = {hi}; let mut __go{idx} = __it{idx} <= __hi{idx};\nwhile __go{idx}\n{inv}\ndecreases (if __go{idx} {{ __hi{idx} - __it{idx} + 1 }} else {{ 0 }}), //@p\n{{ let {var} = __it{idx}; if __it{idx} < __hi{idx} {{ __it{idx} += 1; }} else {{ __go{idx} = false; }}\n{begin}{inner} }} }}")
+                        format!("(); {{ let mut __it{idx} = {lo}; let __hi{idx} = {hi}; let mut __go{idx} = __it{idx} <= __hi{idx};\nwhile __go{idx}\n{inv}\ndecreases (if __go{idx} {{ __hi{idx} - __it{idx} + 1 }} else {{ 0 }}), //@p\n{{ let {var} = __it{idx}; if __it{idx} < __hi{idx} {{ __it{idx} += 1; }} else {{ __go{idx} = false; }}\n{begin}{inner} }} }}")
                     };
                     rw.count("R14");
                     let sp = e.span().byte_range();
@@ -1042,7 +1064,8 @@ impl<'a, 'b, 'ast> Visit<'ast> for Collector<'a, 'b> {
                 let begin = format!("{}{}", rw.section(&format!("loop {idx} begin-raw")).map(|t| format!("{}\n", mark(t))).unwrap_or_default(), begin);
                 let before = rw.section(&format!("loop {idx} before")).map(|t| format!("proof {{ //@p\n{}\n}} //@p\n", mark(t))).unwrap_or_default();
                 // rustc's own desugaring `match IntoIterator::into_iter(E) { mut iter => loop { .. } }`: temporaries of E live for the whole loop
-                let text = format!("{{ match ({it}).into_iter() {{ mut __it{idx} => {{\n{before}loop\n{inv}\n{{ match __it{idx}.next() {{ Some({pat}) => {{ {binds}\n{begin}{{ {inner} }}\n{end} }} None => {{ break; }} }} }}\n{after} }} }} }}");
+                // (the leading `();` keeps the block from directly following a preceding loop body, which Verus's grammar rejects)
+                let text = format!("(); {{ match ({it}).into_iter() {{ mut __it{idx} => {{\n{before}loop\n{inv}\n{{ match __it{idx}.next() {{ Some({pat}) => {{ {binds}\n{begin}{{ {inner} }}\n{end} }} None => {{ break; }} }} }}\n{after} }} }} }}");
                 rw.count("R18");
                 let sp = e.span().byte_range();
                 self.edits.push((sp.start, sp.end, text));
